@@ -143,7 +143,7 @@ def random_opts(rng):
 
 
 def draw_files(rng):
-    w = workload.draw(rng, kinds=("mut", "isamut", "corpus", "casc", "isa", "macro"), weights=(6, 3, 1, 1, 1, 1))
+    w = workload.draw(rng, kinds=("mut", "isamut", "corpus", "casc", "isa", "macro", "ifs", "chain"), weights=(6, 3, 1, 1, 1, 1, 1, 0.3))
     if rng.random() < 0.25:
         # non-ASCII characters anywhere, including outside comments and strings
         name = rng.choice([n for n in w["files"]])
